@@ -58,6 +58,8 @@ func kindsFor(class string) []string {
 		return []string{"remove-eio"}
 	case "readdir":
 		return []string{"readdir-eio"}
+	case "osfile":
+		return []string{"mmap-fail"}
 	}
 	return nil
 }
